@@ -192,7 +192,7 @@ def read_data(fh, mcnp_version, block_type=None, recursion=False):
                 f"The line: {old_line} exceeded the allowed line length of: {line_length} for MCNP {mcnp_version}",
                 errors.LineOverRunWarning,
             )
-        if line.endswith(" &\n"):
+        if line.rstrip().endswith(" &"):
             continue_input = True
         else:
             continue_input = False
